@@ -8,9 +8,9 @@ C09 — model of the type checker (`src/passes/type_check.rs`) and the declarati
 * `computeTy`                  : `ast::Expr::compute_ty` (the "cheap" second implementation that the
                                  `debug_assert_eq!` at the end of `check_expr` compares with).
 * `checkStmt` / `checkStmts`   : `Visitor::visit_stmt` INCLUDING which statement kinds it recurses
-                                 into.  Three arms of the real visitor do not look at what they
-                                 contain; each is a switch of `Cfg` so that the repaired behaviour
-                                 is one definition away (`codeCfg`).
+                                 into.  Three arms of the pinned visitor did not look at what
+                                 they contain; each is a switch of `Cfg` (all on since the
+                                 repairs 9b7e57b / 353f983), `codeCfg` is the code as it is.
 * `HasType` / `ArgsTyped`      : the typing judgement written from the documented rules
                                  (independent of `check`: no evaluation order, no diagnostics).
 * `WellTypedStmt(s)`           : the statement rules (int-only conditions and counters, matching
@@ -49,6 +49,9 @@ structure Ctx where
   varTy : Nat → VarTy
   /-- `ctx.func_signature_from_ast`: `none` = "signature not known" -/
   sig : Nat → Option (List Param)
+  /-- `defs.var_const_expr(def_id).is_some()`: the variable is a `const` item (or a builtin /
+  enum constant) -/
+  isConst : Nat → Bool
 
 mutual
 inductive TExpr where
@@ -97,6 +100,7 @@ def tyErr : String := "type error"
 def prefixErr : String := "variable requires a type prefix"
 def arityErr : String := "wrong number of arguments to"
 def noSigErr : String := "signature not known for ANM opcode"
+def constAssignErr : String := "cannot assign to a constant"
 
 /-! ## `ExprTypeChecker` -/
 
@@ -407,10 +411,14 @@ deriving Repr, DecidableEq, Inhabited
 `StmtKind::Block { .. } => {}` (`false`: `script s { { $REG[10000] = 1.5; } }` was accepted and
 panicked in lowering, `C09.free_block_accepted`). -/
 def walksFreeBlocks : Bool := true
-/-- SWITCH: are the expressions of `interrupt[e]:` and `+e:` type-checked (int required)? -/
-def checksLabelExprs : Bool := false
-/-- SWITCH: is the initialiser of `const T x = e;` compared with `T`? -/
-def checksConstDeclTy : Bool := false
+/-- SWITCH: are the expressions of `interrupt[e]:` and `+e:` type-checked (int required)?  `true`
+since the repair 353f983 (`InterruptLabel(expr) => self.visit_cond(expr)`,
+`RelTimeLabel { delta, .. } => self.visit_cond(delta)`); the pinned tree had empty arms. -/
+def checksLabelExprs : Bool := true
+/-- SWITCH: is the initialiser of `const T x = e;` compared with `T`?  `true` since the repair
+353f983 (`visit_item` calls `check_single_var_decl` for every `Item::ConstVar` pair); the pinned
+tree reached the initialiser only through `walk_item`. -/
+def checksConstDeclTy : Bool := true
 
 /-- the code under test -/
 def codeCfg : Cfg := ⟨walksFreeBlocks, checksLabelExprs, checksConstDeclTy⟩
@@ -433,8 +441,13 @@ def checkCond (Γ : Ctx) (c : TExpr) : Outcome Unit :=
   | .err c => .err c
   | .panic s => .panic s
 
-/-- `check_stmt_assignment` -/
-def checkAssign (Γ : Ctx) (v : VarRef) (op : AssignOp) (e : TExpr) : Outcome Unit :=
+/-- `check_var_is_assignable` (0757655): `var_reg_from_ast` is `Err(def_id)` for everything that is
+not a register (alias), and constants cannot be written to. -/
+def checkAssignable (Γ : Ctx) (v : VarRef) : Outcome Unit :=
+  if !v.isReg && Γ.isConst v.id then .err constAssignErr else .ok ()
+
+/-- `check_stmt_assignment` after the assignability test -/
+def checkAssignTyped (Γ : Ctx) (v : VarRef) (op : AssignOp) (e : TExpr) : Outcome Unit :=
   -- both sides are examined before the first `?`; the variable's diagnostic comes first
   match checkVar (Γ.refTy v) v.sig with
   | .ok tv =>
@@ -451,6 +464,27 @@ def checkAssign (Γ : Ctx) (v : VarRef) (op : AssignOp) (e : TExpr) : Outcome Un
   | .err c => .err c
   | .panic s => .panic s
 
+/-- `check_stmt_assignment`: `self.check_var_is_assignable(var)?` comes first and returns at once -/
+def checkAssign (Γ : Ctx) (v : VarRef) (op : AssignOp) (e : TExpr) : Outcome Unit :=
+  match checkAssignable Γ v with
+  | .ok () => checkAssignTyped Γ v op e
+  | .err c => .err c
+  | .panic s => .panic s
+
+/-- the clobber of `times(v = count)`: assignable, and of the count's type -/
+def checkClobber (Γ : Ctx) (v : VarRef) (tc : Ty) : Outcome Unit :=
+  match checkAssignable Γ v with
+  | .ok () =>
+    match checkVar (Γ.refTy v) v.sig with
+    | .ok tv => match requireSame tv tc with
+      | .ok _ => .ok ()
+      | .err c => .err c
+      | .panic s => .panic s
+    | .err c => .err c
+    | .panic s => .panic s
+  | .err c => .err c
+  | .panic s => .panic s
+
 /-- `check_stmt_times` -/
 def checkTimes (Γ : Ctx) (clobber : Option VarRef) (count : TExpr) : Outcome Unit :=
   match check Γ count >>= requireValue with
@@ -459,14 +493,7 @@ def checkTimes (Γ : Ctx) (clobber : Option VarRef) (count : TExpr) : Outcome Un
     | .ok () =>
       match clobber with
       | none => .ok ()
-      | some v =>
-        match checkVar (Γ.refTy v) v.sig with
-        | .ok tv => match requireSame tv tc with
-          | .ok _ => .ok ()
-          | .err c => .err c
-          | .panic s => .panic s
-        | .err c => .err c
-        | .panic s => .panic s
+      | some v => checkClobber Γ v tc
     | .err c => .err c
     | .panic s => .panic s
   | .err c => .err c
@@ -497,11 +524,13 @@ def checkConstDecl (cfg : Cfg) (Γ : Ctx) (x : Nat) (e : TExpr) : Outcome Unit :
     | .panic s => .panic s
 
 /-- SWITCH: what `check_stmt_return` does for a `return` outside of every function
-(`script s { return; }`).  The unchanged code panics
-(`cur_func_stack.last_mut().expect("return outside of function?!")`); after a repair that reports
-a diagnostic this becomes `.err "<message class>"`.  No theorem depends on which of the two it
-is, only on it not being `.ok ()`. -/
-def returnOutsideFunction : Outcome Unit := .panic "return outside of function?!"
+(`script s { return; }`).  The pinned tree panicked
+(`cur_func_stack.last_mut().expect("return outside of function?!")`, value
+`.panic "return outside of function?!"`); since the repair 0757655 it reports the diagnostic
+`'return' outside of a function`, whose canonical class (the message up to the first quote or
+digit) is the empty string.  No theorem depends on which of the two it is, only on it not being
+`.ok ()`. -/
+def returnOutsideFunction : Outcome Unit := .err ""
 
 /-- `check_stmt_return`; `ρ` = return type of the innermost enclosing function
 (`cur_func_stack.last()`), `none` outside of every function. -/
@@ -608,6 +637,9 @@ inductive ArgsTyped (Γ : Ctx) : TArgs → List Param → Prop
       ArgsTyped Γ (.cons a as) (p :: ps)
 end
 
+/-- only registers and non-constant variables can be written to -/
+def Assignable (Γ : Ctx) (v : VarRef) : Prop := v.isReg = true ∨ Γ.isConst v.id = false
+
 /-- the operand rule of a compound assignment `v op= e` is the one of `v op e` -/
 def AssignTy (op : AssignOp) (t : Ty) : Prop :=
   match op.binop with
@@ -617,7 +649,8 @@ def AssignTy (op : AssignOp) (t : Ty) : Prop :=
 mutual
 def WellTypedStmt (Γ : Ctx) (ρ : Option ETy) : Stmt → Prop
   | .exprStmt e => HasType Γ e .void
-  | .assign v op e => ∃ t, ReadTy (Γ.refTy v) v.sig t ∧ HasType Γ e (.value t) ∧ AssignTy op t
+  | .assign v op e =>
+    Assignable Γ v ∧ ∃ t, ReadTy (Γ.refTy v) v.sig t ∧ HasType Γ e (.value t) ∧ AssignTy op t
   | .decl _ none => True
   | .decl x (some e) => ∃ t, Γ.varTy x = .typed t ∧ HasType Γ e (.value t)
   | .constDecl x e => ∃ t, Γ.varTy x = .typed t ∧ HasType Γ e (.value t)
@@ -629,7 +662,7 @@ def WellTypedStmt (Γ : Ctx) (ρ : Option ETy) : Stmt → Prop
     HasType Γ count (.value .int) ∧
     (match clobber with
       | none => True
-      | some v => ReadTy (Γ.refTy v) v.sig .int) ∧
+      | some v => Assignable Γ v ∧ ReadTy (Γ.refTy v) v.sig .int) ∧
     WellTypedStmts Γ ρ body
   | .condJump c => HasType Γ c (.value .int)
   | .inert => True
